@@ -3,6 +3,7 @@ import RsslVerif.Lemmas.FixpointStmt
 import RsslVerif.Gen.FixpointTables
 import RsslVerif.Lemmas.FixpointText
 import RsslVerif.Lemmas.FixpointSlots
+import RsslVerif.Lemmas.FixpointLeaf
 import RsslVerif.Thm.C09
 /-!
 # C04 — emitted DirectX HLSL is accepted by the front end and is a fixpoint
@@ -260,6 +261,31 @@ theorem bridge_square {Γ' : Env} {nm : Names} {cx : Ctx} {ix : Idx} (hA : Names
 /-- an expression of the subset is its skeleton plus its constants (positions name entities uniquely) -/
 theorem skeleton_and_constants {ix : Idx} (hI : IdxInj ix) {e e2 : Ir.Expr} {i : IExpr} (h1 : erase ix e = some i)
     (h2 : erase ix e2 = some i) (hl : leaves e = leaves e2) : e = e2 := erase_inj hI e e2 i h1 h2 hl
+
+/-- the payloads of `parse_literal` and of the one re-tagging a re-read constant undergoes are the modelled ones
+    (`rereadConst`: `i as i128`, `i as u32`, value unchanged; `retagTo`: `IntLiteral(v) ↦ Int32(v as i32)`), as
+    re-extracted from typer/src/typer/expressions.rs and typer/src/casting.rs -/
+theorem reread_payloads_as_modelled :
+    RsslVerif.Gen.FixpointTables.parseLiteralTable.map (fun r => r.2.map (·.2)) =
+      [some "v", some "v as i128", some "v as u32", none, none, some "v", some "v", some "v", some "v", none] ∧
+    (RsslVerif.Gen.FixpointTables.retagPayloads.find? (fun r => r.1 == "IntLiteral" && r.2.1 == "Int32")).map (·.2.2) =
+      some "v as i32" := by decide
+
+/-- **leaf_value_preserved** — the literal leg at the level of constants: every constant the exporter can print
+    (any `Int32` including `i32::MIN`, any `UInt32`, `IntLiteral` within ±(2^64−1), every float bit pattern, booleans)
+    gets its value back after `generate_literal`, `parse_literal`, folding of the printed sign and re-tagging to the
+    kind the skeleton has at that leaf.  This discharges the hypothesis `leaves e2 = leaves e` of `fixpoint_expr`
+    leaf by leaf, up to the digits: that the printed decimal text of a float is read back to the same bits is C10
+    (`lex_float_nearest`, `nearest64_correct`) plus Rust's shortest round-trip `Display` (assumption). -/
+theorem leaf_value_preserved (c : Ir.Const) (a : HlslAst.Expr) (h : genLiteral c = .ok a) : leafBack c = some c :=
+  RsslVerif.Lemmas.FixpointLeaf.leafBack_id c a h
+
+/-- non-vacuity: `i32::MIN` is printed `-2147483648`, read as `IntLiteral(2147483648)`, negated and re-tagged -/
+example : leafBack (.int32 (BitVec.intMin 32)) = some (.int32 (BitVec.intMin 32)) ∧
+    genLiteral (.int32 (BitVec.intMin 32)) = .ok (.un .Minus (.lit (.intUntyped 2147483648))) := by
+  constructor
+  · exact leaf_value_preserved _ _ (by rfl : genLiteral (.int32 (BitVec.intMin 32)) = .ok (.un .Minus (.lit (.intUntyped 2147483648))))
+  · rfl
 
 /-- the C09 leg for one exported tree: the printed tokens, in front of anything that ends an expression, are read by
     the parser as exactly the tree that was printed -/
